@@ -731,3 +731,1085 @@ Proof.
     destruct (eff_dwa n c <? n_now n - c_last_dwr c);
       [eapply Hclose; exact Hu|apply Hsame; exact Hu].
 Qed.
+
+(* ================================================================================== *)
+(* C18: shutdown                                                                      *)
+(* ================================================================================== *)
+
+(* weak frame: peers keep their names; counters, clock, flag and configuration are kept *)
+Definition wframe (n n' : node) : Prop :=
+  pnames n' = pnames n /\ n_next_cid n' = n_next_cid n /\ n_stopping n' = n_stopping n /\
+  n_now n' = n_now n /\ n_cfg n' = n_cfg n.
+Lemma wframe_refl n : wframe n n.
+Proof. repeat split. Qed.
+Lemma wframe_trans a b c : wframe a b -> wframe b c -> wframe a c.
+Proof. unfold wframe. intros [? [? [? [? ?]]]] [? [? [? [? ?]]]]. repeat split; congruence. Qed.
+Lemma frame_wframe a b : frame a b -> wframe a b.
+Proof. unfold frame, wframe, pnames. intros [-> [? [? [? ?]]]]. repeat split; assumption. Qed.
+
+Lemma remove_conn_wframe n cid r : wframe n (remove_conn n cid r).
+Proof. destruct (remove_conn_spec n cid r) as [_ [? [? [? [? ?]]]]]. repeat split; assumption. Qed.
+
+Lemma close_conn_wframe n cid r : wframe n (fst (close_conn n cid r)).
+Proof.
+  unfold close_conn. destruct (get_conn n cid); cbn [fst]; [apply remove_conn_wframe|apply wframe_refl].
+Qed.
+
+Lemma close_conn_conns n cid r :
+  n_conns (fst (close_conn n cid r)) = List.filter (fun x => negb (Nat.eqb (c_id x) cid)) (n_conns n).
+Proof.
+  unfold close_conn. destruct (get_conn n cid) eqn:Hc; cbn [fst].
+  - apply remove_conn_spec.
+  - symmetry. apply filter_ne_none. exact Hc.
+Qed.
+
+(* the OQueue outputs of an output list *)
+Definition queued (l : list output) : list (nat * omsg) :=
+  List.flat_map (fun o => match o with OQueue c m => [(c, m)] | _ => [] end) l.
+Lemma queued_app a b : queued (a ++ b) = queued a ++ queued b.
+Proof. apply List.flat_map_app. Qed.
+Lemma queued_sends cid l : queued (List.map (OSend cid) l) = [].
+Proof. induction l; [reflexivity|exact IHl]. Qed.
+
+Definition dials_of (l : list output) : list string :=
+  List.flat_map (fun o => match o with ODial p => [p] | _ => [] end) l.
+
+Lemma flush_one_wframe n j : wframe n (fst (flush_one n j)).
+Proof.
+  unfold flush_one. destruct (get_conn n j) as [c|]; [|apply wframe_refl].
+  destruct (c_stalled c || negb (c_sock_open c)); [apply wframe_refl|].
+  destruct (c_out c); [repeat split|].
+  destruct (cstate_eqb (c_state c) SClosing); [|repeat split].
+  match goal with |- context [close_conn ?a ?b ?r] =>
+    pose proof (close_conn_wframe a b r) as H; destruct (close_conn a b r) end.
+  cbn [fst] in *. eapply wframe_trans; [|exact H]. repeat split.
+Qed.
+
+Lemma flush_one_queued n j : queued (snd (flush_one n j)) = [].
+Proof.
+  unfold flush_one. destruct (get_conn n j) as [c|]; [|reflexivity].
+  destruct (c_stalled c || negb (c_sock_open c)); [reflexivity|].
+  destruct (c_out c) as [|o os] eqn:Eo; [reflexivity|].
+  destruct (cstate_eqb (c_state c) SClosing); [|apply queued_sends].
+  unfold close_conn. match goal with |- context [get_conn ?a ?b] => destruct (get_conn a b) end;
+    cbn [snd]; rewrite queued_app, queued_sends; reflexivity.
+Qed.
+
+Lemma flush_conns_wframe l : forall n, wframe n (fst (flush_conns n l)).
+Proof.
+  induction l as [|j r IH]; intros n; [apply wframe_refl|].
+  rewrite flush_conns_cons. pose proof (flush_one_wframe n j) as H1.
+  destruct (flush_one n j) as [n1 o1]. specialize (IH n1).
+  destruct (flush_conns n1 r) as [n2 o2]. cbn [fst] in *. eapply wframe_trans; eassumption.
+Qed.
+
+Lemma flush_conns_queued l : forall n, queued (snd (flush_conns n l)) = [].
+Proof.
+  induction l as [|j r IH]; intros n; [reflexivity|].
+  rewrite flush_conns_cons. pose proof (flush_one_queued n j) as H1.
+  destruct (flush_one n j) as [n1 o1]. specialize (IH n1).
+  destruct (flush_conns n1 r) as [n2 o2]. cbn [fst snd] in *. rewrite queued_app, H1, IH. reflexivity.
+Qed.
+
+Lemma timers_all_stopping l : forall n, n_stopping n = true -> timers_all n l = (n, []).
+Proof.
+  induction l as [|j r IH]; intros n Hs; [reflexivity|].
+  cbn [timers_all]. rewrite (check_timers_stopping n j Hs), (IH n Hs). reflexivity.
+Qed.
+
+Lemma reconnect_all_stopping names : forall n ds, n_stopping n = true -> reconnect_all n names ds = (n, [], ds).
+Proof.
+  induction names as [|nm r IH]; intros n ds Hs; [reflexivity|].
+  cbn [reconnect_all]. destruct (get_peer n nm) as [p|]; [|apply IH, Hs].
+  unfold wants_reconnect. rewrite Hs. cbn [negb andb]. apply IH, Hs.
+Qed.
+
+Lemma io_iteration_stopping n ds :
+  n_stopping n = true ->
+  io_iteration n ds = (set_time n (n_now n) (n_now n + g_wakeup (n_cfg n)), [], ds).
+Proof.
+  intros Hs. unfold io_iteration. rewrite (timers_all_stopping _ n Hs), (reconnect_all_stopping _ n ds Hs).
+  reflexivity.
+Qed.
+
+(* C18: while the node is stopping no timer fires, nobody is dialled, the I/O iteration outputs nothing *)
+Theorem C18_quiet_while_stopping n :
+  n_stopping n = true ->
+  (forall cid, check_timers n cid = (n, [])) /\
+  (forall names ds, dials_of (snd (fst (reconnect_all n names ds))) = [] /\
+                    snd (fst (reconnect_all n names ds)) = []) /\
+  (forall ds, snd (fst (io_iteration n ds)) = []).
+Proof.
+  intros Hs. split; [intros cid; apply check_timers_stopping, Hs|]. split.
+  - intros names ds. rewrite (reconnect_all_stopping names n ds Hs). split; reflexivity.
+  - intros ds. rewrite (io_iteration_stopping n ds Hs). reflexivity.
+Qed.
+
+(* C18: a connection accepted while stopping is closed at once and not registered *)
+Theorem C18_newcomers_refused n ds h :
+  n_stopping n = true ->
+  n_conns (fst (step n ds (EAccept h))) = n_conns n /\
+  snd (step n ds (EAccept h)) = [OClose (n_next_cid n) R_SHUTDOWN].
+Proof. intros Hs. cbn [step]. rewrite Hs. split; reflexivity. Qed.
+
+(* ---- EStopFinish ------------------------------------------------------------------------------ *)
+Fixpoint close_all (cids : list nat) (n : node) (acc : list output) : node * list output :=
+  match cids with
+  | [] => (n, acc)
+  | c :: r => let '(n', o') := close_conn n c R_SHUTDOWN in close_all r n' (acc ++ o')%list
+  end.
+
+Lemma step_stop_finish n ds tc te :
+  step n ds (EStopFinish tc te) =
+  let n0 := set_time n tc (n_io_deadline n) in
+  let '(n1, o1) := close_all (List.map c_id (n_conns n0)) n0 [] in
+  (set_time (set_apps n1 (List.map (fun a => set_awaiting a []) (n_apps n1))) te (n_io_deadline n1), o1).
+Proof. reflexivity. Qed.
+
+Lemma close_all_conns cids : forall n acc x,
+  List.In x (n_conns (fst (close_all cids n acc))) -> List.In x (n_conns n) /\ ~ List.In (c_id x) cids.
+Proof.
+  induction cids as [|a r IH]; intros n acc x Hx; [cbn in Hx; tauto|].
+  cbn [close_all] in Hx. pose proof (close_conn_conns n a R_SHUTDOWN) as Hc.
+  destruct (close_conn n a R_SHUTDOWN) as [n' o']. cbn [fst] in Hc.
+  apply IH in Hx. destruct Hx as [Hin Hnr]. rewrite Hc in Hin. apply List.filter_In in Hin.
+  destruct Hin as [Hin Hne]. split; [exact Hin|]. intros [Ha|Hr]; [|tauto].
+  subst a. rewrite Nat.eqb_refl in Hne. discriminate.
+Qed.
+
+Lemma close_all_acc cids : forall n acc x, List.In x acc -> List.In x (snd (close_all cids n acc)).
+Proof.
+  induction cids as [|a r IH]; intros n acc x Hx; [exact Hx|].
+  cbn [close_all]. destruct (close_conn n a R_SHUTDOWN) as [n' o']. apply IH.
+  apply List.in_or_app. left. exact Hx.
+Qed.
+
+Lemma find_in_some (l : list conn) c :
+  List.In c l -> exists c', List.find (fun x => Nat.eqb (c_id x) (c_id c)) l = Some c'.
+Proof.
+  intros Hin. destruct (List.find (fun x => Nat.eqb (c_id x) (c_id c)) l) eqn:E; [eauto|].
+  exfalso. apply (List.find_none _ _ E) in Hin. rewrite Nat.eqb_refl in Hin. discriminate.
+Qed.
+
+Lemma close_all_out cids : forall n acc c,
+  List.In (c_id c) cids -> List.In c (n_conns n) ->
+  List.In (OClose (c_id c) R_SHUTDOWN) (snd (close_all cids n acc)).
+Proof.
+  induction cids as [|a r IH]; intros n acc c Hj Hc; [destruct Hj|].
+  cbn [close_all]. pose proof (close_conn_conns n a R_SHUTDOWN) as Hcc.
+  destruct (Nat.eq_dec a (c_id c)) as [->|Hne].
+  - destruct (find_in_some _ c Hc) as [c' Hc']. rewrite (close_conn_some n _ _ c' Hc').
+    apply close_all_acc. apply List.in_or_app. right. left. reflexivity.
+  - destruct (close_conn n a R_SHUTDOWN) as [n' o']. cbn [fst] in Hcc. apply IH.
+    + destruct Hj; [congruence|assumption].
+    + rewrite Hcc. apply List.filter_In. split; [exact Hc|].
+      apply Bool.negb_true_iff, Nat.eqb_neq. congruence.
+Qed.
+
+(* C18: when stop() finishes no connection is left and each one was closed with NODE_SHUTDOWN *)
+Theorem C18_all_closed n ds tc te :
+  n_conns (fst (step n ds (EStopFinish tc te))) = [] /\
+  (forall c, List.In c (n_conns n) -> List.In (OClose (c_id c) R_SHUTDOWN) (snd (step n ds (EStopFinish tc te)))).
+Proof.
+  rewrite step_stop_finish. cbn zeta.
+  set (n0 := set_time n tc (n_io_deadline n)).
+  pose proof (close_all_conns (List.map c_id (n_conns n0)) n0 []) as H1.
+  pose proof (close_all_out (List.map c_id (n_conns n0)) n0 []) as H2.
+  destruct (close_all (List.map c_id (n_conns n0)) n0 []) as [n1 o1]. cbn [fst snd] in *.
+  cbn [fst snd n_conns set_time set_apps]. split.
+  - destruct (n_conns n1) as [|x xs] eqn:E; [reflexivity|]. exfalso.
+    destruct (H1 x (or_introl eq_refl)) as [Hin Hnot]. apply Hnot, List.in_map, Hin.
+  - intros c Hc. apply H2; [apply List.in_map|]; exact Hc.
+Qed.
+
+(* C18: a DPA closes the connection at once (CLEAN) if nothing is buffered; otherwise the connection is
+   CLOSING and the next flush that the socket accepts closes it *)
+Theorem C18_close_after_dpa n cid c :
+  get_conn n cid = Some c ->
+  (c_out c = [] -> snd (recv_dpa n cid) = [OClose cid R_CLEAN] /\ get_conn (fst (recv_dpa n cid)) cid = None) /\
+  (c_out c <> [] ->
+     snd (recv_dpa n cid) = [] /\
+     get_conn (fst (recv_dpa n cid)) cid = Some (set_cstate c SClosing) /\
+     (c_stalled c = false -> c_sock_open c = true ->
+      (exists pre post, snd (flush (fst (recv_dpa n cid))) =
+                        pre ++ List.map (OSend cid) (c_out c) ++ [OClose cid R_CLEAN] ++ post) /\
+      get_conn (fst (flush (fst (recv_dpa n cid)))) cid = None)).
+Proof.
+  intros Hc. unfold recv_dpa.
+  pose proof (get_conn_upd_same n cid (fun x => set_cstate x SClosing) c (idp_cstate _) Hc) as H1.
+  rewrite H1. cbn [c_out set_cstate]. split; intros Ho.
+  - rewrite Ho. rewrite (close_conn_some _ cid _ _ H1). cbn [fst snd]. split; [reflexivity|].
+    rewrite remove_conn_get, Nat.eqb_refl. reflexivity.
+  - destruct (c_out c) as [|o os] eqn:Eo; [congruence|]. cbn [fst snd].
+    split; [reflexivity|]. split; [exact H1|]. intros Hst Hso.
+    pose proof (C06_unknown_then_closed _ cid _ H1 eq_refl Hst Hso) as HH.
+    cbn [c_out set_cstate] in HH. rewrite Eo in HH. apply HH. discriminate.
+Qed.
+
+(* ---- EStop --------------------------------------------------------------------------------------- *)
+Fixpoint dpr_all (cids : list nat) (n : node) (acc : list output) : node * list output :=
+  match cids with
+  | [] => (n, acc)
+  | c :: r => match get_conn n c with
+              | Some cn => if is_ready_state (c_state cn)
+                           then let '(n', o') := send_dpr n c in dpr_all r n' (acc ++ o')%list
+                           else dpr_all r n acc
+              | None => dpr_all r n acc
+              end
+  end.
+
+Lemma step_stop n ds force :
+  step n ds (EStop force) =
+  let n0 := set_misc n true (n_next_cid n) (n_e2e n) in
+  if force then (n0, [])
+  else let '(n1, o1) := dpr_all (List.map c_id (n_conns n0)) n0 [] in
+       let '(n2, o2) := settle' n1 ds in (n2, (o1 ++ o2)%list).
+Proof. reflexivity. Qed.
+
+Definition readyb (n : node) (j : nat) : bool :=
+  match get_conn n j with Some c => is_ready_state (c_state c) | None => false end.
+Definition isdpr (cm : nat * omsg) : Prop := o_cmd (snd cm) = DP /\ o_req (snd cm) = true.
+
+Lemma dpr_all_spec cids : forall n acc,
+  List.NoDup cids ->
+  List.map fst (queued (snd (dpr_all cids n acc))) = List.map fst (queued acc) ++ List.filter (readyb n) cids /\
+  (List.Forall isdpr (queued acc) -> List.Forall isdpr (queued (snd (dpr_all cids n acc)))) /\
+  n_stopping (fst (dpr_all cids n acc)) = n_stopping n.
+Proof.
+  induction cids as [|a r IH]; intros n acc Hnd.
+  - cbn [dpr_all snd fst List.filter]. rewrite List.app_nil_r. auto.
+  - inversion Hnd as [|? ? Hnotin Hnd']; subst. cbn [dpr_all List.filter]. unfold readyb at 1.
+    destruct (get_conn n a) as [cn|] eqn:Hc; [|apply IH, Hnd'].
+    destruct (is_ready_state (c_state cn)) eqn:Hr; [|apply IH, Hnd'].
+    destruct (send_dpr_spec n a) as [m [Ho [Hk [Hq [Hcu Hfr]]]]].
+    destruct (send_dpr n a) as [n' o']. cbn [fst snd] in *. subst o'.
+    destruct (IH n' (acc ++ [OQueue a m]) Hnd') as [H1 [H2 H3]].
+    assert (Hfilt : List.filter (readyb n') r = List.filter (readyb n) r).
+    { apply List.filter_ext_in. intros j Hj. unfold readyb. rewrite Hcu.
+      destruct (Nat.eqb j a) eqn:E; [|reflexivity]. apply Nat.eqb_eq in E. subst. contradiction. }
+    split; [|split].
+    + rewrite H1, Hfilt, queued_app, List.map_app, <- List.app_assoc. reflexivity.
+    + intros HF. apply H2. rewrite queued_app. apply List.Forall_app. split; [exact HF|].
+      constructor; [split; assumption|constructor].
+    + rewrite H3. apply Hfr.
+Qed.
+
+Lemma nodup_get_conn n c :
+  List.NoDup (List.map c_id (n_conns n)) -> List.In c (n_conns n) -> get_conn n (c_id c) = Some c.
+Proof.
+  unfold get_conn. induction (n_conns n) as [|x l IH]; intros Hnd Hin; [destruct Hin|].
+  cbn [List.map] in Hnd. inversion Hnd as [|? ? Hnotin Hnd']; subst. cbn [List.find].
+  destruct Hin as [->|Hin]; [rewrite Nat.eqb_refl; reflexivity|].
+  destruct (Nat.eqb (c_id x) (c_id c)) eqn:E; [|apply IH; assumption].
+  apply Nat.eqb_eq in E. exfalso. apply Hnotin. rewrite E. apply List.in_map, Hin.
+Qed.
+
+Lemma filter_readyb n l :
+  (forall c, List.In c l -> get_conn n (c_id c) = Some c) ->
+  List.filter (readyb n) (List.map c_id l) = List.map c_id (List.filter (fun c => is_ready_state (c_state c)) l).
+Proof.
+  induction l as [|x l IH]; intros H; [reflexivity|].
+  cbn [List.map List.filter]. unfold readyb at 1. rewrite (H x (or_introl eq_refl)).
+  rewrite IH by (intros c Hc; apply H; right; exact Hc).
+  destruct (is_ready_state (c_state x)); reflexivity.
+Qed.
+
+Lemma settle'_stopping n ds :
+  n_stopping n = true ->
+  queued (snd (settle' n ds)) = [] /\ n_stopping (fst (settle' n ds)) = true.
+Proof.
+  intros Hs. unfold settle', settle, flush.
+  pose proof (flush_conns_wframe (List.map c_id (n_conns n)) n) as Hw1.
+  pose proof (flush_conns_queued (List.map c_id (n_conns n)) n) as Hq1.
+  destruct (flush_conns n (List.map c_id (n_conns n))) as [n1 o1]. cbn [fst snd] in *.
+  assert (Hs1 : n_stopping n1 = true) by (destruct Hw1 as [_ [_ [H _]]]; congruence).
+  rewrite (io_iteration_stopping n1 ds Hs1).
+  set (n2 := set_time n1 _ _).
+  pose proof (flush_conns_wframe (List.map c_id (n_conns n2)) n2) as Hw2.
+  pose proof (flush_conns_queued (List.map c_id (n_conns n2)) n2) as Hq2.
+  destruct (flush_conns n2 (List.map c_id (n_conns n2))) as [n3 o3]. cbn [fst snd] in *.
+  split.
+  - cbn [List.app]. rewrite queued_app, Hq1, Hq2. reflexivity.
+  - destruct Hw2 as [_ [_ [H _]]]. rewrite H. exact Hs1.
+Qed.
+
+(* C18: stop() queues exactly one DPR for each ready connection, in connection order, and nothing else;
+   a forced stop sends nothing; the node is stopping afterwards *)
+Theorem C18_dpr_to_ready n ds :
+  List.NoDup (List.map c_id (n_conns n)) ->
+  (List.map fst (queued (snd (step n ds (EStop false)))) =
+     List.map c_id (List.filter (fun c => is_ready_state (c_state c)) (n_conns n)) /\
+   List.Forall isdpr (queued (snd (step n ds (EStop false)))) /\
+   n_stopping (fst (step n ds (EStop false))) = true) /\
+  (snd (step n ds (EStop true)) = [] /\ n_stopping (fst (step n ds (EStop true))) = true).
+Proof.
+  intros Hnd. split; [|rewrite step_stop; split; reflexivity].
+  rewrite step_stop. cbn zeta. cbv iota.
+  set (n0 := set_misc n true (n_next_cid n) (n_e2e n)).
+  destruct (dpr_all_spec (List.map c_id (n_conns n0)) n0 [] Hnd) as [H1 [H2 H3]].
+  destruct (dpr_all (List.map c_id (n_conns n0)) n0 []) as [n1 o1]. cbn [fst snd] in *.
+  destruct (settle'_stopping n1 ds H3) as [Hq Hs].
+  destruct (settle' n1 ds) as [n2 o2]. cbn [fst snd] in *.
+  rewrite queued_app, Hq, List.app_nil_r. split; [|split].
+  - rewrite H1. cbn [queued List.flat_map List.map List.app].
+    apply (filter_readyb n0 (n_conns n)). intros c Hc. apply (nodup_get_conn n c Hnd Hc).
+  - apply H2. constructor.
+  - exact Hs.
+Qed.
+
+(* ================================================================================== *)
+(* C06_ready_only_by_ce: a relation between a node and its successors                  *)
+(* ================================================================================== *)
+
+(* per connection: the direction is kept; it is ready afterwards only if it was ready before (escape P);
+   a CONNECTED connection stays CONNECTED (escape Q) *)
+Definition crel (P Q : nat -> Prop) (j : nat) (c c' : conn) : Prop :=
+  c_recv c' = c_recv c /\
+  (is_ready_state (c_state c') = true -> is_ready_state (c_state c) = true \/ P j) /\
+  (c_state c = SConnected -> c_state c' = SConnected \/ Q j).
+
+(* peers keep their names, connection numbers only grow, and every connection afterwards is either new
+   (numbered from the old counter on) or related by crel to the connection of that number before *)
+Definition evolves (P Q : nat -> Prop) (n n' : node) : Prop :=
+  pnames n' = pnames n /\ (n_next_cid n <= n_next_cid n')%nat /\
+  forall j c', get_conn n' j = Some c' ->
+    (n_next_cid n <= j)%nat \/ exists c, get_conn n j = Some c /\ crel P Q j c c'.
+
+Definition NoP : nat -> Prop := fun _ => False.
+Notation ev0 := (evolves NoP NoP).
+
+Lemma crel_refl P Q j c : crel P Q j c c.
+Proof. unfold crel. auto. Qed.
+
+Lemma crel_trans P Q j a b c : crel P Q j a b -> crel P Q j b c -> crel P Q j a c.
+Proof.
+  unfold crel. intros [H1 [H2 H3]] [G1 [G2 G3]]. split; [congruence|]. split.
+  - intros Hr. destruct (G2 Hr) as [Hb|Hp]; [apply H2, Hb|right; exact Hp].
+  - intros Hs. destruct (H3 Hs) as [Hb|Hq]; [apply G3, Hb|right; exact Hq].
+Qed.
+
+Lemma crel_weaken (P Q P' Q' : nat -> Prop) j a b :
+  (forall j, P j -> P' j) -> (forall j, Q j -> Q' j) -> crel P Q j a b -> crel P' Q' j a b.
+Proof.
+  unfold crel. intros HP HQ [H1 [H2 H3]]. split; [exact H1|]. split.
+  - intros Hr. destruct (H2 Hr); auto.
+  - intros Hs. destruct (H3 Hs); auto.
+Qed.
+
+Lemma ev_refl P Q n : evolves P Q n n.
+Proof.
+  split; [reflexivity|]. split; [lia|]. intros j c' H. right. exists c'. split; [exact H|apply crel_refl].
+Qed.
+
+Lemma ev_trans P Q a b c : evolves P Q a b -> evolves P Q b c -> evolves P Q a c.
+Proof.
+  intros [H1 [H2 H3]] [G1 [G2 G3]]. split; [congruence|]. split; [lia|].
+  intros j c'' Hc. destruct (G3 j c'' Hc) as [Hle|[c' [Hc' Hr']]]; [left; lia|].
+  destruct (H3 j c' Hc') as [Hle|[c0 [Hc0 Hr0]]]; [left; exact Hle|].
+  right. exists c0. split; [exact Hc0|]. eapply crel_trans; eassumption.
+Qed.
+
+Lemma ev_weaken (P Q P' Q' : nat -> Prop) a b :
+  (forall j, P j -> P' j) -> (forall j, Q j -> Q' j) -> evolves P Q a b -> evolves P' Q' a b.
+Proof.
+  intros HP HQ [H1 [H2 H3]]. split; [exact H1|]. split; [exact H2|].
+  intros j c' Hc. destruct (H3 j c' Hc) as [Hle|[c [Hc0 Hr]]]; [left; exact Hle|].
+  right. exists c. split; [exact Hc0|]. eapply crel_weaken; eassumption.
+Qed.
+
+Lemma ev0_any P Q a b : ev0 a b -> evolves P Q a b.
+Proof. apply ev_weaken; intros j []. Qed.
+
+Lemma ev_same P Q n n' :
+  n_conns n' = n_conns n -> pnames n' = pnames n -> (n_next_cid n <= n_next_cid n')%nat -> evolves P Q n n'.
+Proof.
+  intros Hc Hp Hn. split; [exact Hp|]. split; [exact Hn|]. intros j c' H. right. exists c'.
+  split; [|apply crel_refl]. rewrite <- H. apply get_conn_ext. symmetry. exact Hc.
+Qed.
+
+Lemma ev_cupd P Q n n' i F :
+  pnames n' = pnames n -> (n_next_cid n <= n_next_cid n')%nat -> cupd n n' i F ->
+  (forall c, get_conn n i = Some c -> crel P Q i c (F c)) -> evolves P Q n n'.
+Proof.
+  intros Hp Hn Hu HF. split; [exact Hp|]. split; [exact Hn|]. intros j c' H. right.
+  rewrite Hu in H. destruct (Nat.eqb j i) eqn:E.
+  - apply Nat.eqb_eq in E. subst j. destruct (get_conn n i) as [c|] eqn:Hc; [|discriminate].
+    cbn in H. inversion H; subst. exists c. split; [reflexivity|]. apply HF. reflexivity.
+  - exists c'. split; [exact H|apply crel_refl].
+Qed.
+
+Lemma ev_wframe_cupd P Q n n' i F :
+  wframe n n' -> cupd n n' i F ->
+  (forall c, get_conn n i = Some c -> crel P Q i c (F c)) -> evolves P Q n n'.
+Proof. intros [Hp [Hn _]] Hu HF. eapply ev_cupd; [exact Hp|lia|exact Hu|exact HF]. Qed.
+
+Lemma ev_close P Q n cid r : evolves P Q n (fst (close_conn n cid r)).
+Proof.
+  destruct (close_conn_wframe n cid r) as [Hp [Hn _]]. split; [exact Hp|]. split; [lia|].
+  intros j c' H. rewrite close_conn_get in H. destruct (Nat.eqb j cid); [discriminate|].
+  right. exists c'. split; [exact H|apply crel_refl].
+Qed.
+
+Ltac solve_crel :=
+  let c := fresh "c" in let H := fresh "H" in let E := fresh "E" in
+  intros c H; unfold crel, wdmark, qout, bump; cbn;
+  destruct (c_state c) eqn:E; cbn; rewrite ?E; cbn; repeat split; auto; try (intros; discriminate).
+
+Lemma ev_upd P Q n i F :
+  idp F -> (forall c, get_conn n i = Some c -> crel P Q i c (F c)) ->
+  evolves P Q n (set_conns n (upd_conn (n_conns n) i F)).
+Proof. intros HF HR. eapply ev_cupd; [reflexivity|apply Nat.le_refl|apply cupd_upd, HF|exact HR]. Qed.
+
+Lemma ev_send_message P Q n cid m : evolves P Q n (fst (send_message n cid m)).
+Proof.
+  eapply ev_wframe_cupd; [apply frame_wframe, send_message_frame|apply send_message_cupd|]. solve_crel.
+Qed.
+
+Lemma ev_send_cer P Q n cid : evolves P Q n (fst (send_cer n cid)).
+Proof.
+  destruct (send_cer_spec n cid) as [m [_ [_ [_ [Hu Hf]]]]].
+  eapply ev_wframe_cupd; [apply frame_wframe, Hf|exact Hu|]. solve_crel.
+Qed.
+
+Lemma ev_send_dwr P Q n cid : evolves P Q n (fst (send_dwr n cid)).
+Proof.
+  destruct (send_dwr_spec n cid) as [m [_ [_ [_ [Hu Hf]]]]].
+  eapply ev_wframe_cupd; [apply frame_wframe, Hf|exact Hu|]. solve_crel.
+Qed.
+
+Lemma ev_send_dpr P Q n cid c :
+  get_conn n cid = Some c -> is_ready_state (c_state c) = true -> evolves P Q n (fst (send_dpr n cid)).
+Proof.
+  intros Hc Hr. destruct (send_dpr_spec n cid) as [m [_ [_ [_ [Hu Hf]]]]].
+  eapply ev_wframe_cupd; [apply frame_wframe, Hf|exact Hu|].
+  intros c0 Hc0. rewrite Hc in Hc0. inversion Hc0; subst c0. unfold crel, qout, bump. cbn.
+  split; [reflexivity|]. split; [discriminate|]. intros Hs. rewrite Hs in Hr. discriminate.
+Qed.
+
+Lemma ev_flush_one n j : ev0 n (fst (flush_one n j)).
+Proof.
+  unfold flush_one. destruct (get_conn n j) as [c|]; [|apply ev_refl].
+  destruct (c_stalled c || negb (c_sock_open c)); [apply ev_refl|].
+  assert (H1 : ev0 n (set_conns n (upd_conn (n_conns n) j (fun c => set_cout c []))))
+    by (apply ev_upd; [solve_idp|solve_crel]).
+  destruct (c_out c); [exact H1|].
+  destruct (cstate_eqb (c_state c) SClosing); [|exact H1].
+  match goal with |- context [close_conn ?a ?b ?r] =>
+    pose proof (ev_close NoP NoP a b r) as H2; destruct (close_conn a b r) end.
+  cbn [fst] in *. eapply ev_trans; eassumption.
+Qed.
+
+Lemma ev_flush_conns l : forall n, ev0 n (fst (flush_conns n l)).
+Proof.
+  induction l as [|j r IH]; intros n; [apply ev_refl|].
+  rewrite flush_conns_cons. pose proof (ev_flush_one n j) as H1.
+  destruct (flush_one n j) as [n1 o1]. specialize (IH n1).
+  destruct (flush_conns n1 r) as [n2 o2]. cbn [fst] in *. eapply ev_trans; eassumption.
+Qed.
+
+Lemma ev_flush n : ev0 n (fst (flush n)).
+Proof. apply ev_flush_conns. Qed.
+
+Lemma ev_check_timers n cid : ev0 n (fst (check_timers n cid)).
+Proof.
+  unfold check_timers. destruct (n_stopping n); [apply ev_refl|].
+  destruct (get_conn n cid) as [c|]; [|apply ev_refl].
+  destruct (c_state c); try apply ev_refl.
+  - match goal with |- context [if ?b then _ else _] => destruct b end; [apply ev_close|apply ev_refl].
+  - match goal with |- context [if ?b then _ else _] => destruct b end; [apply ev_send_dwr|apply ev_refl].
+  - match goal with |- context [if ?b then _ else _] => destruct b end; [apply ev_close|apply ev_refl].
+Qed.
+
+Lemma ev_timers_all l : forall n, ev0 n (fst (timers_all n l)).
+Proof.
+  induction l as [|j r IH]; intros n; [apply ev_refl|].
+  cbn [timers_all]. pose proof (ev_check_timers n j) as H1.
+  destruct (check_timers n j) as [n1 o1]. specialize (IH n1).
+  destruct (timers_all n1 r) as [n2 o2]. cbn [fst] in *. eapply ev_trans; eassumption.
+Qed.
+
+Lemma ev_add P Q n n' c :
+  n_conns n' = n_conns n ++ [c] -> c_id c = n_next_cid n -> n_next_cid n' = S (n_next_cid n) ->
+  pnames n' = pnames n -> evolves P Q n n'.
+Proof.
+  intros Hc Hid Hn Hp. split; [exact Hp|]. split; [lia|]. intros j c' H.
+  unfold get_conn in H. rewrite Hc, find_app_conn in H. fold (get_conn n j) in H.
+  destruct (get_conn n j) as [x|] eqn:Hx.
+  - right. exists x. split; [reflexivity|]. inversion H; subst. apply crel_refl.
+  - left. destruct (Nat.eqb (c_id c) j) eqn:E; [|discriminate]. apply Nat.eqb_eq in E. lia.
+Qed.
+
+Lemma ev_connect_to_peer n name h0 res : ev0 n (fst (connect_to_peer n name h0 res)).
+Proof.
+  unfold connect_to_peer. destruct (get_peer n name) as [p|]; [|apply ev_refl].
+  destruct (p_conn p); [apply ev_refl|]. destruct (negb (p_has_addr p)); [apply ev_refl|].
+  set (cid := n_next_cid n). set (c := new_conn cid false SConnecting name (n_now n) h0).
+  match goal with |- context [close_conn ?x cid R_SOCKET_FAIL] => set (n3 := x) end.
+  assert (H3 : ev0 n n3).
+  { apply (ev_add _ _ n n3 c); try reflexivity. unfold pnames, n3. cbn [n_peers set_peers].
+    apply upd_peer_names. reflexivity. }
+  destruct res.
+  - assert (H4 : ev0 n3 (set_conns n3 (upd_conn (n_conns n3) cid (fun c => set_cstate c SConnected))))
+      by (apply ev_upd; [solve_idp|solve_crel]).
+    match goal with |- context [send_cer ?x cid] => pose proof (ev_send_cer NoP NoP x cid) as H5;
+      destruct (send_cer x cid) as [n5 o] end.
+    cbn [fst] in *. eapply ev_trans; [exact H3|]. eapply ev_trans; eassumption.
+  - pose proof (ev_close NoP NoP n3 cid R_SOCKET_FAIL) as H4.
+    destruct (close_conn n3 cid R_SOCKET_FAIL) as [n4 o]. cbn [fst] in *. eapply ev_trans; eassumption.
+  - exact H3.
+Qed.
+
+Lemma ev_reconnect_all names : forall n ds, ev0 n (fst (fst (reconnect_all n names ds))).
+Proof.
+  induction names as [|nm r IH]; intros n ds; [apply ev_refl|].
+  cbn [reconnect_all]. destruct (get_peer n nm) as [p|]; [|apply IH].
+  destruct (wants_reconnect n p && p_has_addr p); [|apply IH].
+  destruct ds as [|[h0 res] dr].
+  - pose proof (ev_connect_to_peer n nm 0 DialOk) as H1.
+    destruct (connect_to_peer n nm 0 DialOk) as [n1 o1]. specialize (IH n1 []).
+    destruct (reconnect_all n1 r []) as [[n2 o2] d2]. cbn [fst] in *. eapply ev_trans; eassumption.
+  - pose proof (ev_connect_to_peer n nm h0 res) as H1.
+    destruct (connect_to_peer n nm h0 res) as [n1 o1]. specialize (IH n1 dr).
+    destruct (reconnect_all n1 r dr) as [[n2 o2] d2]. cbn [fst] in *. eapply ev_trans; eassumption.
+Qed.
+
+Lemma ev_io_iteration n ds : ev0 n (fst (fst (io_iteration n ds))).
+Proof.
+  unfold io_iteration. pose proof (ev_timers_all (List.map c_id (n_conns n)) n) as H1.
+  destruct (timers_all n (List.map c_id (n_conns n))) as [n1 o1].
+  pose proof (ev_reconnect_all (List.map p_name (n_peers n1)) n1 ds) as H2.
+  destruct (reconnect_all n1 (List.map p_name (n_peers n1)) ds) as [[n2 o2] ds']. cbn [fst] in *.
+  eapply ev_trans; [exact H1|]. eapply ev_trans; [exact H2|]. apply ev_same; reflexivity.
+Qed.
+
+Lemma ev_settle n ds : ev0 n (fst (fst (settle n ds))).
+Proof.
+  unfold settle. pose proof (ev_flush n) as H1. destruct (flush n) as [n1 o1].
+  pose proof (ev_io_iteration n1 ds) as H2. destruct (io_iteration n1 ds) as [[n2 o2] ds'].
+  pose proof (ev_flush n2) as H3. destruct (flush n2) as [n3 o3]. cbn [fst] in *.
+  eapply ev_trans; [exact H1|]. eapply ev_trans; eassumption.
+Qed.
+
+Lemma ev_settle' n ds : ev0 n (fst (settle' n ds)).
+Proof.
+  unfold settle'. pose proof (ev_settle n ds) as H. destruct (settle n ds) as [[n1 o1] d]. exact H.
+Qed.
+
+(* ---- handlers ------------------------------------------------------------------------------------ *)
+Definition Qc (cid : nat) : nat -> Prop := fun j => j = cid.
+
+(* a CER of a configured peer, or a CEA with Result-Code 2001 *)
+Definition ce_any (pn : list string) (m : msg) : Prop :=
+  m_cmd m = CE /\
+  ((m_req m = true /\ exists h, m_origin m = Present h /\ List.In h pn) \/
+   (m_req m = false /\ m_result m = Present 2001)).
+(* the same with the direction fixed: CER on an inbound (b = true), CEA on an outbound connection *)
+Definition ce_ok (pn : list string) (b : bool) (m : msg) : Prop :=
+  m_cmd m = CE /\
+  if b then m_req m = true /\ exists h, m_origin m = Present h /\ List.In h pn
+  else m_req m = false /\ m_result m = Present 2001.
+Definition PA (cid : nat) (pn : list string) (ms : list msg) : nat -> Prop :=
+  fun j => j = cid /\ exists m, List.In m ms /\ ce_any pn m.
+
+Lemma ce_ok_any pn b m : ce_ok pn b m -> ce_any pn m.
+Proof. unfold ce_ok, ce_any. intros [H1 H2]. split; [exact H1|]. destruct b; auto. Qed.
+
+Lemma get_peer_in n h p : get_peer n h = Some p -> List.In h (pnames n).
+Proof.
+  unfold get_peer, pnames. intros H. apply List.find_some in H. destruct H as [Hin He].
+  apply String.eqb_eq in He. subst h. apply List.in_map, Hin.
+Qed.
+
+Lemma in_pnames_get_peer n h : List.In h (pnames n) -> get_peer n h <> None.
+Proof.
+  unfold pnames, get_peer. intros Hin Hn. apply List.in_map_iff in Hin. destruct Hin as [p [Hp Hin]].
+  apply (List.find_none _ _ Hn) in Hin. subst h. rewrite String.eqb_refl in Hin. discriminate.
+Qed.
+
+Lemma ev_upd_keep P Q n i F :
+  idp F -> (forall c, c_recv (F c) = c_recv c /\ c_state (F c) = c_state c) ->
+  evolves P Q n (set_conns n (upd_conn (n_conns n) i F)).
+Proof.
+  intros HF HK. apply ev_upd; [exact HF|]. intros c _. destruct (HK c) as [H1 H2].
+  unfold crel. rewrite H1, H2. auto.
+Qed.
+
+Lemma ev_upd_escape (P Q : nat -> Prop) n i F :
+  idp F -> (forall c, c_recv (F c) = c_recv c) -> P i -> Q i ->
+  evolves P Q n (set_conns n (upd_conn (n_conns n) i F)).
+Proof.
+  intros HF HK HP HQ. apply ev_upd; [exact HF|]. intros c _. unfold crel. rewrite HK. auto.
+Qed.
+
+Lemma ev_assign P Q n cid : evolves P Q n (assign_peer_conn n cid).
+Proof.
+  unfold assign_peer_conn. destruct (get_conn n cid) as [c|]; [|apply ev_refl].
+  destruct (String.eqb (c_host c) ""); [apply ev_refl|].
+  destruct (get_peer n (c_host c)); [|apply ev_refl].
+  destruct (mem_nat cid (n_half_ready n)); (apply ev_same; [reflexivity| |apply Nat.le_refl]);
+    unfold pnames; cbn [n_peers set_peers set_tables]; apply upd_peer_names; reflexivity.
+Qed.
+
+Lemma ev_flag_ready (P Q : nat -> Prop) n cid : P cid -> Q cid -> evolves P Q n (flag_ready n cid).
+Proof.
+  intros HP HQ. unfold flag_ready.
+  eapply ev_trans; [apply (ev_upd_escape P Q n cid (fun c => set_cstate c SReady)); auto; solve_idp|].
+  apply ev_same; reflexivity.
+Qed.
+
+Lemma ev_recv_dwa n cid : ev0 n (fst (recv_dwa n cid)).
+Proof. unfold recv_dwa. cbn [fst]. apply ev_upd; [solve_idp|solve_crel]. Qed.
+
+Lemma ev_recv_dpr P n cid m : evolves P (Qc cid) n (fst (recv_dpr n cid m)).
+Proof.
+  unfold recv_dpr. eapply ev_trans; [|apply ev_send_message].
+  set (n1 := set_conns n _).
+  assert (H1 : evolves P (Qc cid) n n1).
+  { apply ev_upd; [solve_idp|]. intros c _. unfold crel. cbn. split; [reflexivity|].
+    split; [discriminate|]. intros _. right. reflexivity. }
+  eapply ev_trans; [exact H1|].
+  destruct (get_conn n1 cid) as [c|]; [|apply ev_refl].
+  destruct (find_conn_peer n1 c); [|apply ev_refl].
+  apply ev_same; [reflexivity| |apply Nat.le_refl].
+  unfold pnames. cbn [n_peers set_peers]. apply upd_peer_names. reflexivity.
+Qed.
+
+Lemma ev_recv_dpa P n cid : evolves P (Qc cid) n (fst (recv_dpa n cid)).
+Proof.
+  unfold recv_dpa. set (n1 := set_conns n _).
+  assert (H1 : evolves P (Qc cid) n n1).
+  { apply ev_upd; [solve_idp|]. intros c _. unfold crel. cbn. split; [reflexivity|].
+    split; [discriminate|]. intros _. right. reflexivity. }
+  destruct (get_conn n1 cid) as [c|]; [|exact H1].
+  destruct (c_out c); [|exact H1]. eapply ev_trans; [exact H1|apply ev_close].
+Qed.
+
+Lemma ev_recv_app_request P Q n cid m : evolves P Q n (fst (recv_app_request n cid m)).
+Proof.
+  unfold recv_app_request. destruct (get_conn n cid) as [c|]; [|apply ev_refl].
+  destruct (m_drealm m); try apply ev_send_message.
+  destruct (route_lookup n a); [|apply ev_send_message].
+  match goal with |- context [List.find ?f l] => destruct (List.find f l) as [[[i|] ?]|] end;
+    try apply ev_send_message.
+  cbn [fst]. apply ev_same; reflexivity.
+Qed.
+
+Lemma ev_recv_app_answer P Q n m : evolves P Q n (fst (recv_app_answer n m)).
+Proof.
+  unfold recv_app_answer.
+  match goal with |- context [List.find ?f ?l] => destruct (List.find f l) as [[[? ?] i]|] end;
+    [|apply ev_refl].
+  destruct (List.nth_error (n_apps n) i) as [a|]; [|apply ev_refl].
+  destruct (mem_z (m_hbh m) (List.map fst (a_waiting a))); cbn [fst]; apply ev_same; reflexivity.
+Qed.
+
+Lemma ev_recv_cer (Q : nat -> Prop) n cid m :
+  m_cmd m = CE -> m_req m = true -> Q cid ->
+  evolves (PA cid (pnames n) [m]) Q n (fst (recv_cer n cid m)).
+Proof.
+  intros Hk Hr HQ. unfold recv_cer. destruct (m_origin m) as [| |host] eqn:Ho; cbn [pres_get]; try apply ev_refl.
+  destruct (get_peer n host) as [p|] eqn:Hp.
+  - assert (HP : PA cid (pnames n) [m] cid).
+    { split; [reflexivity|]. exists m. split; [left; reflexivity|]. split; [exact Hk|]. left.
+      split; [exact Hr|]. exists host. split; [exact Ho|]. eapply get_peer_in, Hp. }
+    set (n1 := set_conns n _).
+    assert (H1 : evolves (PA cid (pnames n) [m]) Q n n1).
+    { apply ev_upd_keep; [solve_idp|]. intros c. destruct (String.eqb (c_node_name c) ""); split; reflexivity. }
+    destruct (inter_z (node_auth n1) (m_auth m)); destruct (inter_z (node_acct n1) (m_acct m));
+      destruct (mem_z APP_RELAY (m_auth m) || mem_z APP_RELAY (m_acct m));
+      try (eapply ev_trans; [exact H1|apply ev_send_message]);
+      (eapply ev_trans; [|apply ev_send_message]);
+      (eapply ev_trans; [|apply ev_flag_ready; [exact HP|exact HQ]]);
+      (eapply ev_trans; [|apply ev_assign]);
+      (eapply ev_trans; [exact H1|]);
+      (apply ev_upd_keep; [solve_idp|intros c; split; reflexivity]).
+  - eapply ev_trans; [|apply ev_send_message].
+    apply ev_upd; [solve_idp|]. intros c _. unfold crel. cbn. split; [reflexivity|].
+    split; [discriminate|]. intros _. right. exact HQ.
+Qed.
+
+Lemma recv_cea_rejected n cid m :
+  m_result m <> Present 2001 -> recv_cea n cid m = close_conn n cid R_CER_REJECTED.
+Proof. intros H. apply C06_cea_rejected, H. Qed.
+
+Lemma ev_recv_cea (Q : nat -> Prop) n cid m :
+  m_cmd m = CE -> m_req m = false -> Q cid ->
+  evolves (PA cid (pnames n) [m]) Q n (fst (recv_cea n cid m)).
+Proof.
+  intros Hk Hr HQ.
+  destruct (m_result m) as [| |z] eqn:Er;
+    try (rewrite (recv_cea_rejected n cid m) by (rewrite Er; discriminate); apply ev_close).
+  destruct (Z.eq_dec z 2001) as [->|Hne];
+    [|rewrite (recv_cea_rejected n cid m) by (rewrite Er; congruence); apply ev_close].
+  assert (HP : PA cid (pnames n) [m] cid).
+  { split; [reflexivity|]. exists m. split; [left; reflexivity|]. split; [exact Hk|]. right. auto. }
+  unfold recv_cea. rewrite Er. set (n1 := set_conns n _).
+  assert (H1 : evolves (PA cid (pnames n) [m]) Q n n1)
+    by (apply ev_upd_keep; [solve_idp|intros c; split; reflexivity]).
+  destruct (pres_get (m_origin m)) as [host|]; [|exact H1]. cbn [fst].
+  eapply ev_trans; [|apply ev_flag_ready; [exact HP|exact HQ]].
+  eapply ev_trans; [|apply ev_assign].
+  eapply ev_trans; [exact H1|].
+  apply ev_upd_keep; [solve_idp|intros c; split; reflexivity].
+Qed.
+
+Lemma ev_receive_message n cid m :
+  evolves (PA cid (pnames n) [m]) (Qc cid) n (fst (receive_message n cid m)).
+Proof.
+  unfold receive_message. cbv zeta.
+  match goal with |- context [send_message ?x cid (answer_of m (Some RC_MISSING_AVP) _)] => set (n0 := x) end.
+  assert (H0 : ev0 n n0).
+  { unfold n0. destruct (m_origin m); destruct (m_req m); try apply ev_refl; apply ev_same; reflexivity. }
+  assert (Hpn : pnames n0 = pnames n) by apply H0.
+  clearbody n0. eapply ev_trans; [apply ev0_any, H0|]. rewrite <- Hpn.
+  match goal with |- context [match ?l with [] => _ | _ :: _ => _ end] => destruct l end;
+    [|apply ev_send_message].
+  match goal with |- context [if ?b then send_message _ _ _ else _] => destruct b end;
+    [apply ev_send_message|].
+  destruct (m_req m) eqn:Hr; destruct (m_cmd m) eqn:Hk.
+  - destruct (m_origin m); try apply ev_send_message. apply ev_recv_cer; auto. reflexivity.
+  - apply ev_send_message.
+  - apply ev_recv_dpr.
+  - apply ev_recv_app_request.
+  - apply ev_recv_cea; auto. reflexivity.
+  - apply ev0_any, ev_recv_dwa.
+  - apply ev_recv_dpa.
+  - apply ev_recv_app_answer.
+Qed.
+
+Lemma ev_dispatch n cid m : evolves (PA cid (pnames n) [m]) (Qc cid) n (fst (dispatch n cid m)).
+Proof.
+  unfold dispatch. destruct (get_conn n cid) as [c|]; [|apply ev_refl].
+  destruct (gate_passes c m); [apply ev_receive_message|apply ev_refl].
+Qed.
+
+Lemma PA_weaken cid pn ms ms' j : (forall m, List.In m ms -> List.In m ms') -> PA cid pn ms j -> PA cid pn ms' j.
+Proof. intros Hsub [Hj [m [Hin Hm]]]. split; [exact Hj|]. exists m. split; [apply Hsub, Hin|exact Hm]. Qed.
+
+Lemma ev_dispatch_all ms : forall n cid, evolves (PA cid (pnames n) ms) (Qc cid) n (fst (dispatch_all n cid ms)).
+Proof.
+  induction ms as [|m r IH]; intros n cid; [apply ev_refl|].
+  cbn [dispatch_all]. pose proof (ev_dispatch n cid m) as H1.
+  destruct (dispatch n cid m) as [n1 o1]. specialize (IH n1 cid).
+  destruct (dispatch_all n1 cid r) as [n2 o2]. cbn [fst] in *.
+  assert (Hpn : pnames n1 = pnames n) by apply H1. rewrite Hpn in IH.
+  eapply ev_trans.
+  - eapply ev_weaken; [| |exact H1]; [|auto]. intros j. apply PA_weaken. intros x [->|[]]. left. reflexivity.
+  - eapply ev_weaken; [| |exact IH]; [|auto]. intros j. apply PA_weaken. intros x Hx. right. exact Hx.
+Qed.
+
+(* ---- what one frame can do to a CONNECTED connection ---------------------------------------------- *)
+Definition conn_outcome (n' : node) (cid : nat) (b : bool) (pn : list string) (m : msg) : Prop :=
+  get_conn n' cid = None \/
+  (exists c', get_conn n' cid = Some c' /\ c_recv c' = b /\ (c_state c' = SConnected \/ c_state c' = SClosing)) \/
+  ce_ok pn b m.
+
+Lemma co_send n0 cid c a b pn m :
+  get_conn n0 cid = Some c -> c_recv c = b -> (c_state c = SConnected \/ c_state c = SClosing) ->
+  conn_outcome (fst (send_message n0 cid a)) cid b pn m.
+Proof.
+  intros Hc Hb Hs. right. left. exists (qout a c).
+  split; [rewrite send_message_get, Nat.eqb_refl, Hc; reflexivity|]. split; [exact Hb|exact Hs].
+Qed.
+
+Lemma co_recv_cer n0 cid c m host :
+  get_conn n0 cid = Some c -> c_state c = SConnected -> c_recv c = true ->
+  m_cmd m = CE -> m_req m = true -> m_origin m = Present host ->
+  conn_outcome (fst (recv_cer n0 cid m)) cid true (pnames n0) m.
+Proof.
+  intros Hc Hs Hb Hk Hr Ho. unfold recv_cer. rewrite Ho. cbn [pres_get].
+  destruct (get_peer n0 host) as [p|] eqn:Hp.
+  - right. right. split; [exact Hk|]. split; [exact Hr|]. exists host. split; [exact Ho|].
+    eapply get_peer_in, Hp.
+  - eapply co_send.
+    + apply (get_conn_upd_same n0 cid (fun x => set_cstate x SClosing) c); [solve_idp|exact Hc].
+    + exact Hb.
+    + right. reflexivity.
+Qed.
+
+Lemma co_recv_cea n0 cid pn m :
+  m_cmd m = CE -> m_req m = false ->
+  conn_outcome (fst (recv_cea n0 cid m)) cid false pn m.
+Proof.
+  intros Hk Hr.
+  assert (Hrej : m_result m <> Present 2001 -> conn_outcome (fst (recv_cea n0 cid m)) cid false pn m).
+  { intros H. left. rewrite (recv_cea_rejected n0 cid m H), close_conn_get, Nat.eqb_refl. reflexivity. }
+  destruct (m_result m) as [| |z] eqn:Er; try (apply Hrej; discriminate).
+  destruct (Z.eq_dec z 2001) as [->|Hne]; [|apply Hrej; congruence].
+  right. right. split; [exact Hk|]. split; [exact Hr|exact Er].
+Qed.
+
+Lemma co_dispatch n cid c m :
+  get_conn n cid = Some c -> c_state c = SConnected ->
+  conn_outcome (fst (dispatch n cid m)) cid (c_recv c) (pnames n) m.
+Proof.
+  intros Hc Hs. unfold dispatch. rewrite Hc. unfold gate_passes. rewrite Hs.
+  assert (Hstay : conn_outcome n cid (c_recv c) (pnames n) m).
+  { right. left. exists c. auto. }
+  destruct (m_cmd m) eqn:Hk; cbn [cmd_eqb andb fst]; try exact Hstay.
+  destruct (c_recv c) eqn:Hb; destruct (m_req m) eqn:Hr; cbn [negb fst]; try exact Hstay.
+  - (* inbound, CER *)
+    unfold receive_message. cbv zeta. rewrite Hr, Hk.
+    assert (Hsm : forall n0 a, get_conn n0 cid = Some c ->
+                   conn_outcome (fst (send_message n0 cid a)) cid true (pnames n) m)
+      by (intros n0 a H0; eapply co_send; [exact H0|exact Hb|left; exact Hs]).
+    destruct (m_origin m) as [| |host] eqn:Ho;
+      (match goal with |- context [match ?l with [] => _ | _ :: _ => _ end] => destruct l end;
+       [|apply Hsm; exact Hc]);
+      cbv iota; try (apply Hsm; exact Hc);
+      (match goal with |- context [if ?b then send_message _ _ _ else _] => destruct b end;
+       cbv iota; try (apply Hsm; exact Hc)).
+    match goal with |- conn_outcome (fst (recv_cer ?n0 _ _)) _ _ _ _ => change (pnames n) with (pnames n0) end.
+    apply (co_recv_cer _ cid c m host); auto.
+  - (* outbound, CEA *)
+    unfold receive_message. cbv zeta. rewrite Hr, Hk. cbn [andb].
+    destruct (m_origin m); apply co_recv_cea; auto.
+Qed.
+
+Lemma dispatch_all_dead ms : forall n cid,
+  (get_conn n cid = None \/ exists c, get_conn n cid = Some c /\ c_state c = SClosing) ->
+  dispatch_all n cid ms = (n, []).
+Proof.
+  induction ms as [|m r IH]; intros n cid H; [reflexivity|].
+  cbn [dispatch_all].
+  assert (Hd : dispatch n cid m = (n, [])).
+  { destruct H as [H|[c [Hc Hs]]]; [unfold dispatch; rewrite H; reflexivity|].
+    apply (C06_gate_closing n cid c m Hc). left. exact Hs. }
+  rewrite Hd, (IH n cid H). reflexivity.
+Qed.
+
+Lemma co_dispatch_all ms : forall n cid c,
+  get_conn n cid = Some c -> c_state c = SConnected ->
+  get_conn (fst (dispatch_all n cid ms)) cid = None \/
+  (exists c', get_conn (fst (dispatch_all n cid ms)) cid = Some c' /\
+              (c_state c' = SConnected \/ c_state c' = SClosing)) \/
+  exists m, List.In m ms /\ ce_ok (pnames n) (c_recv c) m.
+Proof.
+  induction ms as [|m r IH]; intros n cid c Hc Hs.
+  - right. left. exists c. auto.
+  - cbn [dispatch_all]. pose proof (co_dispatch n cid c m Hc Hs) as H1.
+    pose proof (ev_dispatch n cid m) as He.
+    destruct (dispatch n cid m) as [n1 o1]. cbn [fst] in H1, He.
+    assert (Hpn : pnames n1 = pnames n) by apply He.
+    destruct H1 as [Hnone|[[c1 [Hc1 [Hb1 [Hs1|Hs1]]]]|Hok]].
+    + rewrite (dispatch_all_dead r n1 cid) by (left; exact Hnone). cbn [fst]. left. exact Hnone.
+    + specialize (IH n1 cid c1 Hc1 Hs1). destruct (dispatch_all n1 cid r) as [n2 o2]. cbn [fst] in *.
+      destruct IH as [H|[H|[m' [Hin Hm']]]]; [left; exact H|right; left; exact H|].
+      right. right. exists m'. split; [right; exact Hin|]. rewrite <- Hpn, <- Hb1. exact Hm'.
+    + rewrite (dispatch_all_dead r n1 cid) by (right; exists c1; auto). cbn [fst].
+      right. left. exists c1. auto.
+    + right. right. exists m. split; [left; reflexivity|exact Hok].
+Qed.
+
+(* ---- events other than ERecv never make a connection ready --------------------------------------- *)
+Ltac ev_chain := repeat (first [eassumption | apply ev_refl | (eapply ev_trans; [eassumption|])]).
+
+Lemma ev_step_accept n ds h : ev0 n (fst (step n ds (EAccept h))).
+Proof.
+  cbn [step]. destruct (n_stopping n).
+  - cbn [fst]. apply ev_same; [reflexivity|reflexivity|cbn; lia].
+  - match goal with |- context [settle' ?x ds] => set (n2 := x) end.
+    assert (H1 : ev0 n n2) by (eapply ev_add; reflexivity).
+    pose proof (ev_settle' n2 ds) as H2. ev_chain.
+Qed.
+
+Lemma ev_step_peer_close n ds cid : ev0 n (fst (step n ds (EPeerClose cid))).
+Proof.
+  cbn [step]. pose proof (ev_close NoP NoP n cid R_GONE) as H1. destruct (close_conn n cid R_GONE) as [n1 o1].
+  pose proof (ev_settle' n1 ds) as H2. destruct (settle' n1 ds) as [n2 o2]. cbn [fst] in *. ev_chain.
+Qed.
+
+Lemma ev_step_read_err n ds cid hard : ev0 n (fst (step n ds (EReadErr cid hard))).
+Proof.
+  cbn [step].
+  assert (H1 : ev0 n (fst (if hard then close_conn n cid R_SOCKET_FAIL else (n, []))))
+    by (destruct hard; [apply ev_close|apply ev_refl]).
+  destruct (if hard then close_conn n cid R_SOCKET_FAIL else (n, [])) as [n1 o1].
+  pose proof (ev_settle' n1 ds) as H2. destruct (settle' n1 ds) as [n2 o2]. cbn [fst] in *. ev_chain.
+Qed.
+
+Lemma ev_step_conn_done n ds cid ok : ev0 n (fst (step n ds (EConnDone cid ok))).
+Proof.
+  cbn [step]. destruct (get_conn n cid) as [c|]; [|apply ev_refl].
+  destruct (cstate_eqb (c_state c) SConnecting); [|apply ev_refl]. destruct ok.
+  - set (n1 := set_conns n _).
+    assert (H1 : ev0 n n1) by (apply ev_upd; [solve_idp|solve_crel]).
+    match goal with |- context [send_cer ?x cid] => set (n2 := x) end.
+    assert (H2 : ev0 n1 n2).
+    { unfold n2. destruct (find_conn_peer n1 c); [|apply ev_refl].
+      apply ev_same; [reflexivity| |apply Nat.le_refl].
+      unfold pnames. cbn [n_peers set_peers]. apply upd_peer_names. reflexivity. }
+    clearbody n2. pose proof (ev_send_cer NoP NoP n2 cid) as H3. destruct (send_cer n2 cid) as [n3 o3].
+    pose proof (ev_io_iteration n3 ds) as H4. destruct (io_iteration n3 ds) as [[n4 o4] ds4].
+    pose proof (ev_settle' n4 ds4) as H5. destruct (settle' n4 ds4) as [n5 o5]. cbn [fst] in *. ev_chain.
+  - pose proof (ev_close NoP NoP n cid R_FAILED_CONNECT) as H1.
+    destruct (close_conn n cid R_FAILED_CONNECT) as [n1 o1].
+    pose proof (ev_settle' n1 ds) as H2. destruct (settle' n1 ds) as [n2 o2]. cbn [fst] in *. ev_chain.
+Qed.
+
+Lemma ev_step_stall n ds cid b : ev0 n (fst (step n ds (EStall cid b))).
+Proof.
+  cbn [step]. destruct (get_conn n cid) as [c|]; [|apply ev_refl].
+  set (n1 := set_conns n _).
+  assert (H1 : ev0 n n1) by (apply ev_upd_keep; [solve_idp|intros x; split; reflexivity]).
+  destruct b; [exact H1|]. destruct (c_out c); [exact H1|].
+  pose proof (ev_settle' n1 ds) as H2. ev_chain.
+Qed.
+
+Definition expire (target : Z) (n : node) : node :=
+  set_apps n (List.map (fun a => set_awaiting a (List.filter (fun w => target <? snd w) (a_waiting a))) (n_apps n)).
+
+Definition wake (target : Z) : nat -> node -> dials -> list output -> node * list output :=
+  fix wake (fuel : nat) (n : node) (ds : dials) (acc : list output) : node * list output :=
+    let expire := fun (n : node) =>
+      set_apps n (List.map (fun a => set_awaiting a (List.filter (fun w => target <? snd w) (a_waiting a))) (n_apps n)) in
+    match fuel with
+    | O => (expire (set_time n target (n_io_deadline n)), acc)
+    | S f =>
+        if n_io_deadline n <=? target then
+          let n1 := set_time n (n_io_deadline n) (n_io_deadline n) in
+          let '(n2, o2, ds2) := settle n1 ds in
+          wake f n2 ds2 (acc ++ o2)%list
+        else (expire (set_time n target (n_io_deadline n)), acc)
+    end.
+
+Lemma step_tick n ds dt : step n ds (ETick dt) = wake (n_now n + dt) (S (Z.to_nat dt)) n ds [].
+Proof. reflexivity. Qed.
+
+Lemma wake_O target n ds acc :
+  wake target O n ds acc = (expire target (set_time n target (n_io_deadline n)), acc).
+Proof. reflexivity. Qed.
+
+Lemma wake_S target f n ds acc :
+  wake target (S f) n ds acc =
+  if n_io_deadline n <=? target then
+    let '(n2, o2, ds2) := settle (set_time n (n_io_deadline n) (n_io_deadline n)) ds in
+    wake target f n2 ds2 (acc ++ o2)%list
+  else (expire target (set_time n target (n_io_deadline n)), acc).
+Proof. reflexivity. Qed.
+
+Lemma ev_wake target fuel : forall n ds acc, ev0 n (fst (wake target fuel n ds acc)).
+Proof.
+  induction fuel as [|f IH]; intros n ds acc.
+  - rewrite wake_O. cbn [fst]. apply ev_same; reflexivity.
+  - rewrite wake_S. destruct (n_io_deadline n <=? target); [|cbn [fst]; apply ev_same; reflexivity].
+    set (n1 := set_time n (n_io_deadline n) (n_io_deadline n)).
+    assert (H1 : ev0 n n1) by (apply ev_same; reflexivity).
+    pose proof (ev_settle n1 ds) as H2. destruct (settle n1 ds) as [[n2 o2] ds2]. cbn [fst] in H2.
+    specialize (IH n2 ds2 (acc ++ o2)). ev_chain.
+Qed.
+
+Lemma ev_step_tick n ds dt : ev0 n (fst (step n ds (ETick dt))).
+Proof. rewrite step_tick. apply ev_wake. Qed.
+
+Lemma ev_step_app_answer n ds i m : ev0 n (fst (step n ds (EAppAnswer i m))).
+Proof.
+  cbn [step].
+  assert (H0 : ev0 n (snd (route_answer n m))).
+  { unfold route_answer.
+    match goal with |- context [List.find ?f ?l] => destruct (List.find f l) as [[host ?]|] end;
+      [|apply ev_refl].
+    match goal with |- context [List.find ?f ?l] => destruct (List.find f l) as [c|] end;
+      [destruct (is_ready_state (c_state c))|]; cbn [snd]; apply ev_same; reflexivity. }
+  destruct (route_answer n m) as [[cid|] n1]; cbn [snd] in H0; [|exact H0].
+  pose proof (ev_send_message NoP NoP n1 cid m) as H1. destruct (send_message n1 cid m) as [n2 o2].
+  pose proof (ev_settle' n2 ds) as H2. destruct (settle' n2 ds) as [n3 o3]. cbn [fst] in *. ev_chain.
+Qed.
+
+Lemma ev_step_app_request n ds i m realm pick tmo : ev0 n (fst (step n ds (EAppRequest i m realm pick tmo))).
+Proof.
+  cbn [step].
+  match goal with |- context [let '(n0, e2e) := ?r in _] => set (r0 := r) end.
+  assert (H0 : ev0 n (fst r0)) by (unfold r0; destruct (o_e2e m =? 0); [apply ev_same; reflexivity|apply ev_refl]).
+  destruct r0 as [n0 e2e]. cbn [fst] in H0.
+  destruct (route_request n0 i realm) as [[|p0 us]|]; try exact H0.
+  match goal with |- context [match ?ch with Some _ => _ | None => (n0, [ONotRoutable]) end] => destruct ch as [p|] end;
+    [|exact H0].
+  destruct (p_conn p) as [k|]; [|exact H0].
+  destruct (get_conn n0 k) as [c|]; [|exact H0].
+  match goal with |- context [let '(n1, hbh) := ?r in _] => set (r1 := r) end.
+  assert (H1 : ev0 n0 (fst r1)).
+  { unfold r1. destruct (o_hbh m =? 0); [|apply ev_refl]. cbn [fst].
+    apply ev_upd_keep; [solve_idp|intros x; split; reflexivity]. }
+  destruct r1 as [n1 hbh]. cbn [fst] in H1.
+  match goal with |- context [send_message ?x k ?mm] => set (n3 := x); set (m' := mm) end.
+  assert (H3 : ev0 n1 n3) by (apply ev_same; reflexivity).
+  clearbody n3 m'.
+  pose proof (ev_send_message NoP NoP n3 k m') as H4. destruct (send_message n3 k m') as [n4 o4].
+  pose proof (ev_settle' n4 ds) as H5. destruct (settle' n4 ds) as [n5 o5]. cbn [fst] in *. ev_chain.
+Qed.
+
+Lemma ev_dpr_all cids : forall n acc, ev0 n (fst (dpr_all cids n acc)).
+Proof.
+  induction cids as [|a r IH]; intros n acc; [apply ev_refl|].
+  cbn [dpr_all]. destruct (get_conn n a) as [cn|] eqn:Hc; [|apply IH].
+  destruct (is_ready_state (c_state cn)) eqn:Hr; [|apply IH].
+  pose proof (ev_send_dpr NoP NoP n a cn Hc Hr) as H1. destruct (send_dpr n a) as [n' o'].
+  specialize (IH n' (acc ++ o')). cbn [fst] in *. ev_chain.
+Qed.
+
+Lemma ev_step_stop n ds force : ev0 n (fst (step n ds (EStop force))).
+Proof.
+  rewrite step_stop. cbv zeta. set (n0 := set_misc n true (n_next_cid n) (n_e2e n)).
+  assert (H0 : ev0 n n0) by (apply ev_same; reflexivity).
+  destruct force; [exact H0|].
+  pose proof (ev_dpr_all (List.map c_id (n_conns n0)) n0 []) as H1.
+  destruct (dpr_all (List.map c_id (n_conns n0)) n0 []) as [n1 o1].
+  pose proof (ev_settle' n1 ds) as H2. destruct (settle' n1 ds) as [n2 o2]. cbn [fst] in *. ev_chain.
+Qed.
+
+Lemma ev_close_all cids : forall n acc, ev0 n (fst (close_all cids n acc)).
+Proof.
+  induction cids as [|a r IH]; intros n acc; [apply ev_refl|].
+  cbn [close_all]. pose proof (ev_close NoP NoP n a R_SHUTDOWN) as H1.
+  destruct (close_conn n a R_SHUTDOWN) as [n' o']. specialize (IH n' (acc ++ o')). cbn [fst] in *. ev_chain.
+Qed.
+
+Lemma ev_step_stop_finish n ds tc te : ev0 n (fst (step n ds (EStopFinish tc te))).
+Proof.
+  rewrite step_stop_finish. cbv zeta. set (n0 := set_time n tc (n_io_deadline n)).
+  assert (H0 : ev0 n n0) by (apply ev_same; reflexivity).
+  pose proof (ev_close_all (List.map c_id (n_conns n0)) n0 []) as H1.
+  destruct (close_all (List.map c_id (n_conns n0)) n0 []) as [n1 o1]. cbn [fst] in *.
+  eapply ev_trans; [exact H0|]. eapply ev_trans; [exact H1|]. apply ev_same; reflexivity.
+Qed.
+
+Fixpoint start_all (names : list string) (n : node) (ds : dials) (acc : list output) : node * list output * dials :=
+  match names with
+  | [] => (n, acc, ds)
+  | nm :: r =>
+      match get_peer n nm with
+      | Some p =>
+          if p_persistent p then
+            match ds with
+            | (h0, res) :: dr => let '(n1, o1) := connect_to_peer n nm h0 res in start_all r n1 dr (acc ++ o1)%list
+            | [] => let '(n1, o1) := connect_to_peer n nm 0 DialOk in start_all r n1 [] (acc ++ o1)%list
+            end
+          else start_all r n ds acc
+      | None => start_all r n ds acc
+      end
+  end.
+
+Lemma step_start n ds :
+  step n ds EStart =
+  let '(n1, o1, ds1) := start_all (List.map p_name (n_peers n)) n ds [] in
+  let '(n2, o2) := settle' n1 ds1 in (n2, (o1 ++ o2)%list).
+Proof. reflexivity. Qed.
+
+Lemma ev_start_all names : forall n ds acc, ev0 n (fst (fst (start_all names n ds acc))).
+Proof.
+  induction names as [|nm r IH]; intros n ds acc; [apply ev_refl|].
+  cbn [start_all]. destruct (get_peer n nm) as [p|]; [|apply IH].
+  destruct (p_persistent p); [|apply IH]. destruct ds as [|[h0 res] dr].
+  - pose proof (ev_connect_to_peer n nm 0 DialOk) as H1. destruct (connect_to_peer n nm 0 DialOk) as [n1 o1].
+    specialize (IH n1 [] (acc ++ o1)). cbn [fst] in *. ev_chain.
+  - pose proof (ev_connect_to_peer n nm h0 res) as H1. destruct (connect_to_peer n nm h0 res) as [n1 o1].
+    specialize (IH n1 dr (acc ++ o1)). cbn [fst] in *. ev_chain.
+Qed.
+
+Lemma ev_step_start n ds : ev0 n (fst (step n ds EStart)).
+Proof.
+  rewrite step_start. pose proof (ev_start_all (List.map p_name (n_peers n)) n ds []) as H1.
+  destruct (start_all (List.map p_name (n_peers n)) n ds []) as [[n1 o1] ds1].
+  pose proof (ev_settle' n1 ds1) as H2. destruct (settle' n1 ds1) as [n2 o2]. cbn [fst] in *. ev_chain.
+Qed.
